@@ -41,6 +41,7 @@ type c04Frame struct {
 	Pseed   int    `json:"pseed"`
 	K       int    `json:"k"`     // bytes the handler (if one is called) tries to read
 	Panic   bool   `json:"panic"` // ... and then panics
+	PKind   string `json:"pkind"` // with what: string (default) | error | index | nilmap | nilderef | typeassert | divzero | int | struct
 }
 
 type c04Step struct {
@@ -219,8 +220,39 @@ func (h c04Handler) HandleMessage(_ *Client, msg Message) {
 	}
 	o.mu.Unlock()
 	if b.Panic {
-		panic("verif: scripted handler panic")
+		verifPanic(b.PKind, n)
 	}
+}
+
+type verifPanicValue struct{ why string }
+
+// verifPanic panics the way handler bugs do: with an explicit value of several kinds, or through
+// the Go runtime (runtime.Error).  `n` only keeps the compiler from folding the faults away.
+func verifPanic(kind string, n int) {
+	switch kind {
+	case "error":
+		panic(errors.New("verif: scripted handler panic (error value)"))
+	case "index":
+		s := make([]byte, n%3)
+		_ = s[n%3+1] // index out of range
+	case "nilmap":
+		var m map[int]int
+		m[n] = 1 // assignment to entry in nil map
+	case "nilderef":
+		var h *Header
+		_ = h.payloadLen + uint32(n) // nil pointer dereference
+	case "typeassert":
+		var v interface{} = n
+		_ = v.(string) // interface conversion
+	case "divzero":
+		z := n - n
+		_ = 1 / z // integer divide by zero
+	case "int":
+		panic(42)
+	case "struct":
+		panic(verifPanicValue{"verif"})
+	}
+	panic("verif: scripted handler panic")
 }
 
 func errClass(err error) string {
